@@ -7,7 +7,7 @@ property monitors on real traces -> on any broken obligation / disagreement sear
 input -> verdict + evidence."""
 import sys, os, json, random, shutil, time, re, traceback
 sys.path.insert(0, os.path.dirname(os.path.abspath(__file__)))
-import vlib, kapi, genapi, monitors, ksizes, kcrypto
+import vlib, kapi, genapi, monitors, ksizes, kcrypto, kattr
 
 TRUSTED_BASE = [
     'Coq 8.16.1 kernel (coqc, full .vo build); vm_compute used for reflection over regenerated tables and finite sweeps; no native_compute',
@@ -307,7 +307,8 @@ def check_C12(res, tier, seed):
 
 def _kc_job(args):
     fn, a = args[0], args[1:]
-    return getattr(kcrypto, fn)(*a)
+    mod = kattr if fn.startswith('seq_attr') else kcrypto
+    return getattr(mod, fn)(*a)
 
 
 def run_kcrypto(c, res, pid, fn, n, seed, extra=(), stream='K-crypto'):
@@ -364,6 +365,19 @@ def check_C13(res, tier, seed):
     finish_proof_side(c, res, 'C13')
 
 
+ATTR_RULE = ('per sequence 4-8 keys made by create / generate / unwrap / derive (ECB data, concatenations) / copy / generate-then-protect / RSA private import with random SENSITIVE, EXTRACTABLE, WRAP_WITH_TRUSTED; after each: history attributes against the ghost record, C_GetAttributeValue of secret attributes with buffers {NULL,0,n-1,n,n+9} alone or mixed, then one of: weakening attempts by set/copy (canonical and non-canonical true bytes), wrapping under untrusted/trusted keys, read-only attributes and MODIFIABLE/COPYABLE/DESTROYABLE gates, caller-supplied history attributes on create/generate/derive; TRUSTED by user vs SO; private->public copy')
+
+
+def attr_check(pid):
+    def f(res, tier, seed):
+        c = prepare(pid, res)
+        stats, distinct, samples = run_kcrypto(c, res, pid, 'seq_attr', 240 if tier == 'quick' else 6000, seed, stream='K-attr')
+        res.coverage.update({'evaluations': stats['calls'], 'distinct_nontrivial': distinct, 'rule': ATTR_RULE, 'samples': samples, 'k_attr': stats,
+                             'traces_validated_against_impl': stats['sequences']})
+        finish_proof_side(c, res, pid)
+    return f
+
+
 def kapi_check(pid, profile, monitor_name, rule, nq=400, nt=12000, nops=45):
     def f(res, tier, seed):
         c = prepare(pid, res)
@@ -376,7 +390,7 @@ def kapi_check(pid, profile, monitor_name, rule, nq=400, nt=12000, nops=45):
 
 
 RULE = 'model-guided random call sequences over 2 tokens and up to ~8 sessions (%s profile of tools/genapi.py); a trace is non-trivial when at least 3 calls after the prelude succeed; distinct = distinct (op, rv) sequences'
-CHECKS = {'C03': check_C03, 'C12': check_C12, 'C10': check_C10, 'C13': check_C13,
+CHECKS = {'C03': check_C03, 'C12': check_C12, 'C02': attr_check('C02'), 'C08': attr_check('C08'), 'C10': check_C10, 'C13': check_C13,
           'C01': kapi_check('C01', 'objects', 'monitor_c01', RULE % 'objects'),
           'C04': kapi_check('C04', 'pins', 'monitor_c03', RULE % 'pins'),
           'C11': kapi_check('C11', 'handles', 'monitor_c11', RULE % 'handles'),
